@@ -248,11 +248,23 @@ func extractC06() *lean {
 	l.def("stateVerifiers", "List String", leanStrList(verifiers), verifiers)
 
 	// state.Add: phases, what happens inside the write closure, tx options
-	var phases, writeCalls, writeConds, firstStmt, opts, rollback []string
+	var phases, writeCalls, writeConds, firstStmt, opts, rollback, optArgs, defers []string
 	for _, d := range sf.Decls {
 		fd, ok := d.(*ast.FuncDecl)
 		if !ok || fd.Name.Name != "Add" {
 			continue
+		}
+		for _, st := range fd.Body.List { // statements of Add itself (not of its closures)
+			if ds, ok := st.(*ast.DeferStmt); ok {
+				defers = append(defers, "defer "+c06Expr(ds.Call))
+			}
+			if as, ok := st.(*ast.AssignStmt); ok && len(as.Lhs) == 1 && c06Expr(as.Lhs[0]) == "unlock" {
+				if fl, ok := as.Rhs[0].(*ast.FuncLit); ok && len(fl.Body.List) == 1 {
+					if es, ok := fl.Body.List[0].(*ast.ExprStmt); ok {
+						defers = append(defers, "unlock := "+c06Expr(es.X))
+					}
+				}
+			}
 		}
 		ast.Inspect(fd.Body, func(n ast.Node) bool {
 			c, ok := n.(*ast.CallExpr)
@@ -286,6 +298,11 @@ func extractC06() *lean {
 				for _, a := range c.Args[2:] {
 					if ac, ok := a.(*ast.CallExpr); ok {
 						opts = append(opts, c06Expr(ac.Fun))
+						if len(ac.Args) == 1 {
+							if id, ok := ac.Args[0].(*ast.Ident); ok {
+								optArgs = append(optArgs, c06Expr(ac.Fun)+"("+id.Name+")")
+							}
+						}
 						if c06Expr(ac.Fun) == "stoabs.OnRollback" && len(ac.Args) == 1 {
 							if fl, ok := ac.Args[0].(*ast.FuncLit); ok {
 								for _, st := range fl.Body.List {
@@ -307,6 +324,8 @@ func extractC06() *lean {
 	l.def("addWriteConds", "List String", leanStrList(writeConds), writeConds)
 	l.def("addWriteOpts", "List String", leanStrList(opts), opts)
 	l.def("addRollbackStmts", "List String", leanStrList(rollback), rollback)
+	l.def("addWriteOptArgs", "List String", leanStrList(optArgs), optArgs)
+	l.def("addUnlocking", "List String", leanStrList(defers), defers)
 
 	// ---- the edges: who calls Add / ParseTransaction / WritePayload, and how the state is wired
 	callsWithArgs := func(n ast.Node, prefixes ...string) []string {
